@@ -5,7 +5,7 @@ import ast
 from ..astutil import Env, chain, src, walk, stmts
 from ..model import Unrecognised
 
-__all__ = ['absent', 'closed_world', 'flag_clobber', 'subclass_overrides', 'function_as_expr', 'concept_cls', 'resolve_method', 'single_return', 'returns_of',
+__all__ = ['no_unpickle_shortcut', 'absent', 'closed_world', 'flag_clobber', 'subclass_overrides', 'function_as_expr', 'concept_cls', 'resolve_method', 'single_return', 'returns_of',
            'top_level', 'find_calls', 'only', 'method_calls_on']
 
 
@@ -147,3 +147,27 @@ def absent(model, R, rule, func, node, slot, expected, found, extra=None):
     if closed_world(model, func):
         return R.bad(rule, func, node, slot, expected, found, extra)
     return R.unknown(rule, func, node, slot, f'{found} - but the function delegates to a helper the rule does not follow')
+
+
+def no_unpickle_shortcut(model, R, rule):
+    """``Lattice._init(..., unpickle=True)`` returns before ranks, atoms and labels are computed.  That shortcut is only
+    valid for members that already carry them; the flat pickle state rebuilds fresh members, so no call may take it."""
+    init = model.func('lattices.Data._init')
+    if 'unpickle' not in init.params:
+        R.ok(rule, init, init.node, '_init has no shortcut that skips ranks/atoms/labels')
+        return
+    pos = init.params.index('unpickle')
+    n = 0
+    for f in model.all_funcs():
+        for call in walk(f.body):
+            if isinstance(call, ast.Call) and (chain(call.func) or [''])[-1] == '_init':
+                n += 1
+                val = next((k.value for k in call.keywords if k.arg == 'unpickle'), None)
+                if val is None and len(call.args) > pos and not any(isinstance(a, ast.Starred) for a in call.args):
+                    val = call.args[pos]
+                ok = val is None or (isinstance(val, ast.Constant) and val.value is False)
+                R.decided(ok, rule, f, call, f'{f.name}: _init runs completely (ranks, atoms, labels)', 'no unpickle=... argument (or False)',
+                          f'unpickle={src(val)}' if val is not None else '',
+                          extra={'consequence': 'members rebuilt from the flat state keep the class defaults objects == () / properties == () and have no dindex/atoms'} if not ok else None)
+    if n == 0:
+        R.unknown(rule, init, init.node, '_init call sites', 'no call of _init found')
